@@ -213,6 +213,8 @@ def make_vars(form, box):
         return I(np.array([float(a) for a, _ in box]), np.array([float(b) for _, b in box]))
     if form == "Vi":        # integer-dtype bound arrays
         return I(np.array([int(a) for a, _ in box], dtype=np.int64), np.array([int(b) for _, b in box], dtype=np.int64))
+    if form == "Vu":        # unsigned-integer bound arrays
+        return I(np.array([int(a) for a, _ in box], dtype=np.uint64), np.array([int(b) for _, b in box], dtype=np.uint64))
     if form == "Vn":        # bounds are negative-stride views of a matrix stored in reversed row order
         M = np.array([[float(a), float(b)] for a, b in box][::-1])
         return I(lo=M[::-1, 0], hi=M[::-1, 1])
@@ -231,7 +233,14 @@ def snapshot_vars(v):
     return tuple(snapshot_vars(x) for x in v)
 
 
-def run_b2b(e, box, form, strat, style, nsub, fstyle="object"):
+def chain_head(chain):
+    """the RESULT object of a first propagation, to be used as an operand of the next one"""
+    from pyuncertainnumber.propagation.b2b import b2b
+    e0, box0 = chain
+    return b2b(make_vars("L", box0), Func(e0, len(box0)), interval_strategy="direct")
+
+
+def run_b2b(e, box, form, strat, style, nsub, fstyle="object", vars_obj=None, chain=None):
     from pyuncertainnumber.propagation.b2b import b2b
     f = Func(e, len(box))
     kw = {}
@@ -241,7 +250,12 @@ def run_b2b(e, box, form, strat, style, nsub, fstyle="object"):
         kw["n_sub"] = nsub
     f.raw = f.vars = f.vars_snap = None
     try:
-        f.vars = make_vars(form, box)
+        if vars_obj is not None:
+            f.vars = vars_obj
+        elif chain is not None:
+            f.vars = [chain_head(chain)] + make_vars("L", box[1:])
+        else:
+            f.vars = make_vars(form, box)
         f.vars_snap = snapshot_vars(f.vars)
         f.raw = b2b(f.vars, make_callable(f, fstyle), interval_strategy=strat, **kw)
         r = canon(f.raw)
@@ -516,13 +530,13 @@ def gen_cases(ctx):
             cf=[("direct", None, None), ("endpoints", None, None), ("subinterval", "direct", 3), ("subinterval", "endpoints", 3),
                 ("subinterval", "direct", 1), ("subinterval", "endpoints", 4)])
     # A. exact stream: integer boxes, + - * pow, power-of-two subdivision
-    for _ in range(ctx.scale(110, 550)):
+    for _ in range(ctx.scale(96, 550)):
         d = rng.choice([1, 2, 2, 3, 3, 4])
         e = gen_expr(rng, d, rng.choice([2, 3, 3, 4]), ["add", "sub", "mul", "mul", "pow"], [-3, -2, -1, 2, 3, 5])
         form = rng.choice(["L", "L", "V", "T", "Li", "Vi", "Vf"]) if d > 1 else rng.choice(["L", "V", "S", "Li", "Vi"])
         add("exact", e, int_box(rng, d), form=form, exact=True)
     # B. general stream: dyadic boxes, division, exp, sqrt, any n_sub
-    n_b = ctx.scale(110, 550)
+    n_b = ctx.scale(96, 550)
     tries = 0
     while n_b > 0 and tries < 100000:
         tries += 1
@@ -538,7 +552,7 @@ def gen_cases(ctx):
         add("general", e, box, form=form)
         n_b -= 1
     # C. monotone by construction
-    for _ in range(ctx.scale(60, 300)):
+    for _ in range(ctx.scale(50, 300)):
         d = rng.choice([1, 2, 3, 4])
         box = dyadic_box(rng, d, positive=rng.random() < 0.4)
         e = mono_expr(rng, d, box)
@@ -612,11 +626,21 @@ def gen_cases(ctx):
         for e in seq_fns:
             add("sequence", e, box, exact=True, fstyle=fstyle,
                 cf=[("endpoints", None, None), ("subinterval", "endpoints", 2), ("subinterval", "endpoints", 4), ("direct", None, None)])
-    # C5. a vector Interval whose bound arrays are negative-stride views (oracle only while KF-C13-nditer-order is open)
+    # C6. chained: the Interval RETURNED by one propagation is the first operand of the next
+    for e0, box0, e1, rest in (
+            (("sub", ("mul", ("v", 0), ("v", 1)), ("v", 0)), [(-1, 2), (3, 5)], ("sub", ("mul", ("v", 0), ("v", 0)), ("mul", ("v", 0), ("v", 1))), [(1, 2)]),
+            (("add", ("v", 0), ("v", 1)), [(0, 1), (2, 4)], ("mul", ("v", 0), ("sub", ("v", 1), ("v", 2))), [(-2, 1), (0, 3)]),
+            (("mul", ("c", 2), ("v", 0)), [(-3, -1)], ("add", ("pow", ("v", 0), 2), ("v", 0)), [])):
+        y = canon(chain_head((e0, box0)))
+        if y[0] == "ok":
+            add("chained", e1, [(y[1], y[2])] + rest, exact=True, chain=(e0, box0),
+                cf=[("direct", None, None), ("endpoints", None, None), ("subinterval", "direct", 2), ("subinterval", "endpoints", 2),
+                    ("subinterval", "endpoints", 1)])
+    # C5. a vector Interval whose bound arrays are negative-stride views (KF-C13-nditer-order, repaired by a87c462)
     for e, box in ((("sub", ("mul", ("v", 0), ("v", 1)), ("v", 0)), [(-1, 2), (3, 5)]),
                    (("add", ("mul", ("v", 0), ("v", 0)), ("mul", ("v", 1), ("v", 2))), [(-1, 1), (2, 3), (-4, -2)]),
                    (("sub", ("mul", ("c", 2), ("v", 0)), ("v", 1)), [(0, 1), (5, 9)])):
-        add("negstride", e, box, form="Vn", nomodel=True,
+        add("negstride", e, box, form="Vn", exact=True,
             cf=[("direct", None, None), ("endpoints", None, None), ("subinterval", "direct", 2), ("subinterval", "endpoints", 2),
                 ("subinterval", "direct", 1)])
     # D. malformed / rejected inputs (compared on error kind)
@@ -629,8 +653,23 @@ def gen_cases(ctx):
         dict(e=("mul", ("v", 0), ("v", 0)), box=[], cf=[("direct", None, None), ("endpoints", None, None)]),
         dict(e=("mul", ("v", 0), ("v", 2)), box=[(1, 2), (3, 4)], cf=[("direct", None, None), ("endpoints", None, None)]),
     ]
+    mf += [
+        # just outside the domain of sqrt; a divisor touching zero at one corner only
+        dict(e=("sqrt", ("v", 0)), box=[(-1e-17, 1.0)], cf=[("direct", None, None), ("subinterval", "direct", 2)]),
+        dict(e=("div", ("v", 1), ("v", 0)), box=[(0.0, 1.0), (1.0, 2.0)], cf=[("direct", None, None), ("subinterval", "direct", 3)]),
+        dict(e=("div", ("c", 1), ("mul", ("v", 0), ("v", 1))), box=[(-2.0, 0.0), (1.0, 2.0)], cf=[("direct", None, None)]),
+        dict(e=("sqrt", ("sub", ("v", 0), ("c", 1))), box=[(1.0 - 2.0 ** -52, 3.0)], cf=[("direct", None, None)]),
+    ]
     for m in mf:
         add("malformed", m["e"], m["box"], exact=True, cf=m["cf"])
+    # valid extreme inputs must NOT raise: exp just below overflow, sqrt from exactly 0, a divisor just off zero
+    edge_cf = [("direct", None, None), ("endpoints", None, None), ("subinterval", "direct", 2), ("subinterval", "endpoints", 3)]
+    add("edge-valid", ("exp", ("v", 0)), [(700.0, 709.0)], cf=edge_cf)
+    add("edge-valid", ("sqrt", ("mul", ("v", 0), ("v", 1))), [(0.0, 4.0), (0.0, 9.0)], cf=edge_cf)
+    add("edge-valid", ("div", ("v", 1), ("v", 0)), [(2.0 ** -1000, 1.0), (1.0, 2.0)], cf=edge_cf, mag_floor=0.0)
+    add("edge-valid", ("div", ("v", 0), ("sub", ("v", 1), ("c", 1))), [(1.0, 2.0), (1.0 + 2.0 ** -40, 3.0)], cf=edge_cf)
+    # unsigned-integer bound arrays
+    add("edge-valid", ("sub", ("mul", ("v", 0), ("v", 1)), ("v", 0)), [(1, 3), (2, 5)], form="Vu", exact=True, cf=edge_cf + [("subinterval", "direct", 4)])
     # an unknown subinterval_style must be rejected (oracle only: today's code returns None, which is no model value)
     add("malformed", ("mul", ("v", 0), ("v", 1)), [(1, 2), (3, 4)], exact=True, nomodel=True,
         cf=[("subinterval", "endpoint", 2), ("subinterval", "Direct", 2)])
@@ -643,14 +682,28 @@ def gen_cases(ctx):
         add("malformed", e, box, exact=True, cf=[("direct", None, None), ("subinterval", "direct", 2)])
     # E. routing: EpistemicPropagation / Propagation
     methods = ["endpoint", "endpoints", "vertex", "subinterval", "subintervals", "subinterval_reconstitution", "direct", "nonsense"]
-    for k in range(ctx.scale(32, 400)):
+    for k in range(ctx.scale(40, 400)):
         d = rng.choice([1, 2, 3])
         e = gen_expr(rng, d, 3, ["add", "sub", "mul", "pow"], [-2, 2, 3])
         m = methods[k % len(methods)]
         sub = m.startswith("subinterval")
         style = rng.choice(["direct", "endpoints"]) if sub else None
-        nsub = rng.choice([1, 2, 4]) if sub else None
-        add("routing", e, int_box(rng, d), exact=True, cf=[], route=dict(method=m, style=style, nsub=nsub, high=(k // len(methods)) % 2 == 1))
+        nsub = rng.choice([1, 1, 2, 3, 4]) if sub else None
+        kind = k % 3
+        if kind == 0:
+            box, ex = int_box(rng, d), nsub in (None, 1, 2, 4)
+        elif kind == 1:
+            box, ex = dyadic_box(rng, d), False
+        else:
+            box, ex = [thin_side() if j == 0 else dyadic_box(rng, 1)[0] for j in range(d)], False
+            e = gen_expr(rng, d, 2, ["add", "sub", "mul"], [-2, 2, 3])
+        add("routing", e, box, exact=ex, cf=[], route=dict(method=m, style=style, nsub=nsub, high=(k // len(methods)) % 2 == 1))
+    # every sub-strategy through both class layers on one fixed non-monotone problem (n_sub = 1 with style 'endpoints' included)
+    for m, style, nsub in (("vertex", None, None), ("subinterval", "endpoints", 1), ("subinterval", "direct", 1), ("subinterval", "endpoints", 3),
+                           ("subinterval_reconstitution", "direct", 4)):
+        for high in (False, True):
+            add("routing", ("sub", ("mul", ("v", 0), ("v", 1)), ("mul", ("v", 0), ("v", 0))), [(-1, 2), (3, 5)], exact=True, cf=[],
+                route=dict(method=m, style=style, nsub=nsub, high=high))
     # F. negative integer powers (oracle only; Interval.__pow__ is C05's anchor, the model has natural powers only)
     add("negpow", ("add", ("npow", ("v", 0), 2), ("v", 1)), [(1.375, 1.875), (3.0, 3.75)],
         cf=[("direct", None, None), ("endpoints", None, None), ("subinterval", "direct", 2)], nomodel=True)
@@ -765,7 +818,8 @@ def run(ctx: core.Check, cases=None):
                 "distinct on (expression, box, form, configuration).")
     ctx.assumptions = [
         "binary64 rounding is not modelled: the exact stream must agree exactly, the general stream within 2^12*size ulp of "
-        "the largest intermediate magnitude",
+        "the largest intermediate magnitude, where magnitudes are taken through the absolute-value evaluation of the expression (so that "
+        "a rounding error amplified after a cancellation is covered)",
         "exp and sqrt are parameters of the model (values supplied by numpy through the harness); the theorems assume only that "
         "they are monotone on their domain",
         "the true range is bounded from inside by exact evaluation at corners, lattice points of the tiling, midpoints and random "
@@ -784,7 +838,7 @@ def run(ctx: core.Check, cases=None):
             runs.append((ci, "b2b", cf))
         if "route" in c:
             runs.append((ci, "ep", c["route"]))
-    FORMW = {"L": "L", "Li": "L", "T": "L", "V": "V", "Vi": "V", "Vn": "V", "Vf": "V", "S": "S"}
+    FORMW = {"L": "L", "Li": "L", "T": "L", "V": "V", "Vi": "V", "Vn": "V", "Vf": "V", "Vu": "V", "S": "S"}
 
     def mk_req(i, tab):
         ci, kind, cf = runs[i]
@@ -818,7 +872,16 @@ def run(ctx: core.Check, cases=None):
         e, box = c["e"], c["box"]
         d = len(box)
         if kind == "b2b":
-            impl, fobj = run_b2b(e, box, c["form"], *cf, fstyle=c.get("fstyle") or ("object", "closure", "lambda")[i % 3])
+            vobj = None
+            if ci % 2 == 0 and box and not c.get("chain"):      # the SAME operand objects for every configuration of the case
+                if "_vars" not in c:
+                    try:
+                        c["_vars"] = make_vars(c["form"], box)
+                    except BaseException:  # noqa
+                        c["_vars"] = None
+                vobj = c["_vars"]
+            impl, fobj = run_b2b(e, box, c["form"], *cf, fstyle=c.get("fstyle") or ("object", "closure", "lambda")[i % 3],
+                                 vars_obj=vobj, chain=c.get("chain"))
             key = (ci, cf)
         else:
             impl, fobj = run_ep(e, box, cf["method"], cf["style"], cf["nsub"], cf["high"])
@@ -902,6 +965,38 @@ def run(ctx: core.Check, cases=None):
             ctx.sample(cj(c, results={str(k[1]): list(v) for k, v in results.items() if k[0] == ci}))
 
 
+def abs_eval(e, X):
+    """worst-case magnitude through which a relative rounding error of an operand can be amplified: the expression evaluated
+    with every operation replaced by its bound on absolute values (|a±b| <= A(a)+A(b), |a*b| <= A(a)A(b), |a/b| <= A(a)/mig(b)).
+    After a cancellation (x1 - x1 over a thin side at 1e6) the result is small but its error is not."""
+    t = e[0]
+
+    def mags(sub):
+        try:
+            with np.errstate(all="ignore"):
+                r = canon(ev(sub, X))
+            if r[0] == "ok" and all(math.isfinite(v) for v in r[1:]):
+                return abs(r[1]), abs(r[2]), (r[1] <= 0 <= r[2])
+        except BaseException:  # noqa
+            pass
+        return None
+    if t == "v" or t == "c":
+        m = mags(e)
+        return max(m[0], m[1]) if m else 1.0
+    if t in ("add", "sub"):
+        return abs_eval(e[1], X) + abs_eval(e[2], X)
+    if t == "mul":
+        return abs_eval(e[1], X) * abs_eval(e[2], X)
+    if t == "div":
+        m = mags(e[2])
+        mig = min(m[0], m[1]) if m and not m[2] and min(m[0], m[1]) > 0 else 1.0
+        return abs_eval(e[1], X) / mig
+    if t in ("pow", "npow"):
+        return abs_eval(e[1], X) ** e[2]
+    m = mags(e)
+    return (max(m[0], m[1]) if m else 1.0) * max(1.0, abs_eval(e[1], X))
+
+
 def tolerance(c):
     if "_tol" in c:
         return c["_tol"]
@@ -921,6 +1016,12 @@ def tolerance(c):
                         mag = max(mag, abs(v))
         except BaseException:  # noqa
             pass
+    try:
+        a = abs_eval(c["e"], X)
+        if math.isfinite(a):
+            mag = max(mag, a)
+    except BaseException:  # noqa
+        pass
     c["_tol"] = F(2 ** 12 * size(c["e"])) * F(core.ulp(max(mag, 1e-300)))
     return c["_tol"]
 
